@@ -68,8 +68,9 @@ def u_t(draw, dyadic=False, comparison=False):
         t = draw(st.sampled_from([0.5, 0.5] + ts))
         return u, t
     u = draw(st.one_of(
-        st.sampled_from([1.0, 1.0, 2.0, 1 / (2 * 0.6), 1 / (2 * (2 / 3)), 0.75, 2 / (2 - 0.1), 2 / (2 - 0.013), 3.0]),
-        st.floats(0.51, 4.0)))
+        # (a super-majority assorter's bound is 1/(2f): 4.4, 10 for small shares)
+        st.sampled_from([1.0, 1.0, 2.0, 1 / (2 * 0.6), 1 / (2 * (2 / 3)), 0.75, 2 / (2 - 0.1), 2 / (2 - 0.013), 3.0, 4.4, 10.0]),
+        st.floats(0.51, 4.0), st.floats(4.0, 12.0)))
     if draw(st.integers(0, 2)) > 0 and u > 0.5 * (1 + 1e-6):
         t = 0.5
     else:
@@ -128,10 +129,11 @@ def config(draw, family, dyadic=False, max_N=60, min_N=1, ut=None, dyadic_g=Fals
         kw["g"] = draw(st.one_of(st.sampled_from([0, 0.1, 0.5]), st.floats(0.0, 0.99)))
         cfg["random_order"] = draw(st.sampled_from([True, True, False]))
     elif base == "sprt-fin":
-        cfg.update(test="wald_sprt")
+        # (an estimator may well be configured on the object - contests pass theirs to every test - the SPRT's alternative is eta)
+        cfg.update(test="wald_sprt", estim=draw(st.sampled_from([None, None, "shrink_trunc", "optimal_comparison"])))
         kw["eta"] = eta
     elif base == "sprt":  # sprt-inf
-        cfg.update(test="wald_sprt")
+        cfg.update(test="wald_sprt", estim=draw(st.sampled_from([None, None, "shrink_trunc"])))
         kw["eta"] = eta
         cfg["random_order"] = draw(st.sampled_from([True, True, False]))
     else:
